@@ -306,8 +306,11 @@ type builder struct {
 	caseSeq  int
 	thorough bool
 	// extra observations attached to the next case runCase emits
-	pendingBig   []string
-	pendingCanon []string
+	pendingBig        []string
+	pendingEcRead     []string
+	pendingVol        string
+	pendingNontrivial bool
+	pendingCanon      []string
 }
 
 // ---- closed-form content for the production-size run, mirrored by mix_byte in coq/model/EC.v ----
@@ -440,6 +443,7 @@ func (b *builder) bigRebuild(r *hx.Rng, lost []int) {
 		hx.Z(ec.ErasureCodingLargeBlockSize), hx.Z(ec.ErasureCodingSmallBlockSize), hx.Z(rebuildBuf), hx.Z(int64(seed)), hx.Z(int64(D)), hx.Bool(genErr == nil),
 		hx.ZList(lens), hx.ZList(offZ), hx.List(origS), hx.List(pb), hx.Bool(err == nil), hx.ZList(genZ), hx.ZList(rlens), hx.List(rebuilt), hx.ZList(firstDiff))
 	b.pendingBig = append(b.pendingBig, term)
+	b.pendingNontrivial = true
 	b.pendingCanon = append(b.pendingCanon, fmt.Sprintf("big D%d seed%d lost%v", D, seed, lost))
 	b.out.Count(fmt.Sprintf("big-rebuild-passes:%d", slen/int(rebuildBuf)), 1)
 	b.out.Count(fmt.Sprintf("big-rebuild-lost:%d", len(lost)), 1)
@@ -450,12 +454,12 @@ func (b *builder) bigRebuild(r *hx.Rng, lost []int) {
 // pass (B > slen), and sizes that do not divide slen (the "ec shard size expected" error
 // once a later pass reads fewer bytes); 0 = the real generateMissingEcFiles (1 MiB buffer)
 func pickRebuildBuf(r *hx.Rng, p params, slen int) int {
-	cands := []int{0, int(p.S), 2 * int(p.S), slen, slen + 3, 7, 16, 1}
+	cands := []int{0, int(p.S), 2 * int(p.S), slen, slen + 3, 7, 1, 5}
 	if slen >= 4 && slen%2 == 0 {
 		cands = append(cands, slen/2)
 	}
 	if slen > 3 {
-		cands = append(cands, slen-1, (slen+1)/2)
+		cands = append(cands, (slen+1)/2)
 	}
 	c := cands[r.Intn(len(cands))]
 	if c < 0 {
@@ -642,12 +646,17 @@ func (b *builder) runCase(r *hx.Rng, p params, D int, kind string, nReads int, s
 		os.RemoveAll(rdir)
 	}
 
-	term := fmt.Sprintf("{| c_large := %s; c_small := %s; c_buf := %s; c_rbuf := %s; c_seed := %s; c_dsize := %s; c_gen_ok := %s; c_shard_lens := %s; c_data_shards := %s; c_parity_shards := %s; c_colwise := %s; c_wd_sync := %s; c_decode_run := %s; c_decoded := %s; c_reads := %s; c_rebuilds := %s; c_big := %s |}",
+	volTerm := "None"
+	if b.pendingVol != "" {
+		volTerm = hx.Some(b.pendingVol)
+	}
+	extraNontrivial := b.pendingNontrivial
+	b.pendingNontrivial = false
+	term := fmt.Sprintf("{| c_large := %s; c_small := %s; c_buf := %s; c_rbuf := %s; c_seed := %s; c_dsize := %s; c_gen_ok := %s; c_shard_lens := %s; c_data_shards := %s; c_parity_shards := %s; c_colwise := %s; c_wd_sync := %s; c_decode_run := %s; c_decoded := %s; c_reads := %s; c_rebuilds := %s; c_big := %s; c_ecreads := %s; c_vol := %s |}",
 		hx.Z(p.L), hx.Z(p.S), hx.Z(int64(p.buf)), hx.Z(rebuildBuf), hx.Z(int64(seed)), hx.Z(int64(D)), hx.Bool(genErr == nil),
-		hx.ZList(lens), hx.List(dataShards), hx.List(parityShards), hx.Bool(colwise), hx.Bool(b.wdSync), hx.Bool(decode), decoded, hx.List(reads), hx.List(rebuilds), hx.List(b.pendingBig))
-	extraNontrivial := len(b.pendingBig) > 0
+		hx.ZList(lens), hx.List(dataShards), hx.List(parityShards), hx.Bool(colwise), hx.Bool(b.wdSync), hx.Bool(decode), decoded, hx.List(reads), hx.List(rebuilds), hx.List(b.pendingBig), hx.List(b.pendingEcRead), volTerm)
 	canon = append(canon, b.pendingCanon...)
-	b.pendingBig, b.pendingCanon = nil, nil
+	b.pendingBig, b.pendingEcRead, b.pendingVol, b.pendingCanon = nil, nil, "", nil
 	lrow := int(p.L) * 10
 	rel := "mid"
 	switch m := D % lrow; {
@@ -669,6 +678,15 @@ func (b *builder) runCase(r *hx.Rng, p params, D int, kind string, nReads int, s
 	b.out.Add(term, fmt.Sprintf("L%d S%d b%d D%d seed%d %s", p.L, p.S, p.buf, D, seed, strings.Join(canon, ",")), (D > 0 && (len(reads) > 0 || len(rebuilds) > 0)) || extraNontrivial, kind)
 }
 
+// volCase: a decode + mount observation (vol.go) carried by an empty EC layout case
+func (b *builder) volCase(r *hx.Rng, e extraCase) {
+	b.pendingVol = e.term
+	b.pendingCanon = append(b.pendingCanon, e.canon)
+	b.pendingNontrivial = e.nontrivial
+	b.out.Count("vol:"+e.kind, 1)
+	b.runCase(r, params{40, 10, 10}, 0, e.kind, 0, nil, false)
+}
+
 func min(a, b int) int {
 	if a < b {
 		return a
@@ -678,7 +696,7 @@ func min(a, b int) int {
 
 func main() {
 	out := hx.Flags("C06", 120)
-	out.Rule = "dat = LCG(seed) bytes; block sizes (large,small,buffer) in {(40,10,10),(100,10,10)} plus a few (20,10,5),(60,20,10); datSize: every size within 2 small rows (+-3 bytes) of 0..3 large rows (thorough: swept systematically, quick: sampled, boundaries first); per layout case ~22 reads (offset,size; read through the production intervals AND the true-size intervals): first/last byte, empty, straddling every row/block boundary, block-aligned grid x sizes {1,S-1,S,S+1,L-1,L,L+1,..}, one long read across the large/small switch, the whole file when small; decode of every layout case; rebuild cases: subsets of <=4 lost shards (thorough: all 1471 swept, quick: all singles + sampled), a few 5-subsets (error path), each rebuild either the real generateMissingEcFiles (1 MiB buffer: one short pass) or its transcription with a buffer from {S,2S,len,len/2,len+3,len-1,7,16,1} (several passes, the empty final read, the uneven-size error); big-rebuild cases: the real WriteEcFiles+RebuildEcFiles with production constants on a 10..40 MiB .dat = mix_byte(seed) (2..4 passes), shard files sampled at ~90 offsets around every MiB boundary; first cases are the fixed pre-repair witnesses (995-byte dat L=100: LocateData(100,10,1000,0,8); datSize = k*10*large). non-trivial = non-empty dat with at least one read or rebuild; distinct = (params, datSize, seed, reads, lost sets)"
+	out.Rule = "dat = LCG(seed) bytes; block sizes (large,small,buffer) in {(40,10,10),(100,10,10)} plus a few (20,10,5),(60,20,10); datSize: every size within 2 small rows (+-3 bytes) of 0..3 large rows (thorough: swept systematically, quick: sampled, boundaries first); per layout case ~22 reads (offset,size; read through the production intervals AND the true-size intervals): first/last byte, empty, straddling every row/block boundary, block-aligned grid x sizes {1,S-1,S,S+1,L-1,L,L+1,..}, one long read across the large/small switch, the whole file when small; decode of every layout case; rebuild cases: subsets of <=4 lost shards (thorough: all 1471 swept, quick: all singles + sampled), a few 5-subsets (error path), each rebuild either the real generateMissingEcFiles (1 MiB buffer: one short pass) or its transcription with a buffer from {S,2S,len,len/2,len+3,7,5,1} (several passes, the empty final read, the uneven-size error); big-rebuild cases: the real WriteEcFiles+RebuildEcFiles with production constants on a 10..40 MiB .dat = mix_byte(seed) (2..4 passes), shard files sampled at ~90 offsets around every MiB boundary; decode+mount cases (vol.go): a real volume with 3..10 writes/overwrites/deletes over keys 1..4, encoded with block sizes 40/10, decoded as ec.decode does (real FindDatFileSize / WriteIdxFileFromEcIndex), mounted and read back, the witnesses of findings 0,1,2 fixed in shard 2; ec-read cases (ecread.go): a real volume of 1..3 MiB with needles placed across the MiB block boundaries, real WriteEcFiles, the 14 shards mounted in a Store, every key through EcVolume.LocateEcShardNeedle and Store.ReadEcShardNeedle; first cases of shard 0 are the fixed pre-repair witnesses (995-byte dat L=100: LocateData(100,10,1000,0,8); datSize = k*10*large). non-trivial = non-empty dat with at least one read or rebuild; distinct = (params, datSize, seed, reads, lost sets)"
 	root := hx.NewRng(out.Seed)
 	dir, err := ioutil.TempDir("", "c06")
 	hx.Must(err)
@@ -709,6 +727,7 @@ func main() {
 		// the fixed cases are emitted once per check run (bin/check seeds its shards seed*1000+k)
 		fixed = nil
 	}
+	var volWit []extraCase
 	for i := 0; i < out.N; i++ {
 		r := root.Fork()
 		if i < len(fixed) {
@@ -719,12 +738,17 @@ func main() {
 			b.runCase(r, params{40, 10, 10}, 437, "rebuild", 0, append(singles, []int{}), false)
 			continue
 		}
-		// production-size rebuilds (several passes of the 1 MiB rebuild buffer): two per check
-		// run in shard 0 (one lost data shard + one lost parity shard; four lost), sometimes
-		// one more in the other shards; thorough: one in every shard of cases
-		if (shardNo == 0 && (i == len(fixed)+1 || i == len(fixed)+2)) || (shardNo != 0 && i == 0 && (b.thorough || r.Chance(1, 4))) {
+		// The deterministic extra cases are spread over the first shards of a check run
+		// (bin/check seeds its shards seed*1000+k, so shardNo = k):
+		//   shard 1: two production-size rebuilds (several passes of the 1 MiB rebuild buffer):
+		//            one lost data shard + one lost parity shard; four lost shards
+		//   shard 2: the decode + mount witnesses of findings 0, 1, 2 and a clean one (vol.go)
+		//   shard 3: the production EC read entry points on a real volume (ecread.go)
+		// and every shard has random decode + mount cases; the later shards sometimes one more
+		// production-size rebuild / EC read (thorough: always).
+		if (shardNo == 1 && i <= 1) || (shardNo > 3 && i == 0 && (b.thorough || r.Chance(1, 4))) {
 			lost := []int{r.Intn(10), 10 + r.Intn(4)}
-			if i == len(fixed)+2 {
+			if i == 1 {
 				lost = b.allSub[r.Intn(len(b.allSub))]
 				for len(lost) < 4 {
 					lost = b.allSub[r.Intn(len(b.allSub))]
@@ -732,6 +756,23 @@ func main() {
 			}
 			b.bigRebuild(r, lost)
 			b.runCase(r, params{40, 10, 10}, 0, "big-rebuild", 0, nil, false)
+			continue
+		}
+		if shardNo == 2 && i < 4 {
+			if volWit == nil {
+				volWit = volWitnesses(filepath.Join(dir, "volw"))
+			}
+			b.volCase(r, volWit[i])
+			continue
+		}
+		if (shardNo == 3 && i == 0) || (shardNo > 3 && i == 1 && (b.thorough || r.Chance(1, 4))) {
+			b.ecRead(r)
+			b.runCase(r, params{40, 10, 10}, 0, "ec-read", 0, nil, false)
+			continue
+		}
+		if i == 5 || (i == 8 && shardNo%2 == 1) {
+			b.caseSeq++
+			b.volCase(r, volRandom(r, filepath.Join(dir, fmt.Sprintf("vol%d", b.caseSeq))))
 			continue
 		}
 		// choose the size
@@ -759,6 +800,9 @@ func main() {
 			// rebuild case
 			var subs [][]int
 			nsub := 10
+			if !b.thorough {
+				nsub = 7
+			}
 			if b.thorough {
 				start := (shardNo*out.N/4 + i/4) * nsub
 				for j := 0; j < nsub; j++ {
